@@ -62,11 +62,11 @@ func TestSelfConsistency(t *testing.T) {
 		t.Fatal("too few segmentations", cnt)
 	}
 	for _, bad := range [][]byte{
-		{2, 0, 0, 0, 0x00, 0x01},       // zero-count RLE
-		{1, 0, 0, 0, 0x01},             // zero-group bit-packed
-		{2, 0, 0, 0, 0x10, 0x02},       // RLE value wider than width 1
-		{3, 0, 0, 0, 0x10, 0x01},       // length prefix past the data
-		{2, 0, 0, 0, 0x05, 0xff},       // truncated bit-packed payload (2 groups, 1 byte)
+		{2, 0, 0, 0, 0x00, 0x01}, // zero-count RLE
+		{1, 0, 0, 0, 0x01},       // zero-group bit-packed
+		{2, 0, 0, 0, 0x10, 0x02}, // RLE value wider than width 1
+		{3, 0, 0, 0, 0x10, 0x01}, // length prefix past the data
+		{2, 0, 0, 0, 0x05, 0xff}, // truncated bit-packed payload (2 groups, 1 byte)
 	} {
 		if _, err := Decode(bad, 1); err == nil {
 			t.Errorf("accepted malformed %x", bad)
